@@ -285,6 +285,8 @@ func checkC09(c *Ctx) {
 	c.Rule("C09.2", "data+EOF: at every source read site the accompanying error may cause failure only under control dependence on a short count", 1)
 	c.Rule("C09.3", "the source value escapes to nothing but the classified read sites, fill-or-fail primitives and Close (no type switch to ByteReader/Seeker, no bufio)", 1)
 	readDiscipline(c, "C09.1", "C09.2", "C09.3")
+	c.Rule("C09.4", "whole-file read simulation through a fragmenting source: with every Read delivering an arbitrary positive count (and the last data possibly together with io.EOF) ReadFrom returns the same two tracks, events and deltas as from memory", 1)
+	runReadFromSim(c, "", "", "", "C09.4")
 }
 
 // readDiscipline: the E-io rules on the SMF source (shared by C09 and C05.3).
@@ -312,6 +314,10 @@ func readDiscipline(c *Ctx, r1, r2, r3 string) {
 		case "Read":
 			nsites++
 			rs := analyseReadSite(call)
+			if forwardingRead(fn, call) {
+				c.OK(r1, "read-site "+FuncName(fn), p.Pos(call.Pos()), "forwarding wrapper: the caller's buffer is handed on and count and error are returned unchanged; how it is read is judged at the wrapper's callers (and by C09.4)")
+				continue
+			}
 			if !rs.constL || rs.bufLen != 1 {
 				c.Bad(r1, "read-site "+FuncName(fn), p.Pos(call.Pos()), fmt.Sprintf("raw Read on the SMF source into a buffer that is not of constant length 1 (constLen=%v len=%d): a short read is legal for io.Reader and is not retried, so the result depends on fragmentation and a truncated field is zero padded", rs.constL, rs.bufLen))
 				continue
@@ -380,4 +386,27 @@ func readDiscipline(c *Ctx, r1, r2, r3 string) {
 	c.OK(r3, "flow-summary", "-", fmt.Sprintf("source value flow computed: %d SSA values, %d struct fields carry it; every sink was classified above", len(fl.Vals), len(fl.Fields)))
 	c.Extra["source_read_sites"] = nsites
 	c.Extra["tainted_fields"] = len(fl.Fields)
+}
+
+// forwardingRead: fn is itself a Read([]byte) (int, error) method whose buffer parameter is handed to the inner Read
+// unchanged and whose every return yields that call's count (an io.Reader wrapper: error bookkeeping, counting).
+func forwardingRead(fn *ssa.Function, call ssa.CallInstruction) bool {
+	sig := fn.Signature
+	if fn.Name() != "Read" || sig.Recv() == nil || sig.Params().Len() != 1 || sig.Results().Len() != 2 {
+		return false
+	}
+	if len(call.Common().Args) != 1 || len(fn.Params) != 2 || call.Common().Args[0] != ssa.Value(fn.Params[1]) {
+		return false
+	}
+	cv := call.Value()
+	if cv == nil {
+		return false
+	}
+	for _, r := range allReturns(fn) {
+		ex, ok := strip(retVal(r, 0)).(*ssa.Extract)
+		if !ok || ex.Tuple != ssa.Value(cv) || ex.Index != 0 {
+			return false
+		}
+	}
+	return len(allReturns(fn)) > 0
 }
